@@ -7,13 +7,15 @@
   (harness/extract/locktable.py, regenerated from the source before every build) and re-proved
   by `decide` on every run.
 
-  FULL statement of the property on the model (visible, and FALSE of the code as it is):
+  FULL statement of the property on the model, proved below for MemoryFS:
 
-      ∀ calls s, Linearizable tableImpl calls s
+      memoryfs_linearizable : ∀ calls s, Linearizable tableImpl calls s
 
-  It fails for the calls that are not one locked block (`FS.writebytes` / `FS.readbytes` =
-  open + I/O + close; see `memfs_writebytes_race_counterexample`), so the theorem proved is
-  `memoryfs_linearizable_partial`, with the excluded methods listed explicitly in `coveredOp`.
+  (every operation of `Ref.Op`, any number of threads, any tree, any schedule).  It became true
+  with three repairs of the library — `MemoryFS.removedir` (0e32556), `FS.readbytes`/`FS.writebytes`
+  (feefeca), `FS.move` (652becf); `FS.readtext`/`FS.writetext` (a9b2b2a) followed — each of which is pinned here by a table theorem and a
+  `…_repaired` regression theorem; the races they closed are kept in `FsProofs/C08Model.lean` as
+  counterexamples of the lock-free variants (`…_without_lock_counterexample`).
 -/
 import FsModel.Conc
 import FsModel.Generated.LockTable
@@ -33,8 +35,8 @@ def memMutators : List String :=
    "listdir", "scandir", "_get_dir_entry"]
 
 /-- TABLE THEOREM.  Removing a `with self._lock` from any of these methods (or splitting one into
-two locked blocks, as `removedir` was before findings/C08-memoryfs-removedir-race.patch) changes
-the generated table and breaks this proof. -/
+two locked blocks, as `removedir` was before fix 0e32556) changes the generated table and breaks
+this proof. -/
 theorem mem_mutators_single_segment :
     ∀ m ∈ memMutators, shapeOf lockTable lockBases "MemoryFS" m = .singleLocked := by decide +kernel
 
@@ -52,7 +54,7 @@ theorem mem_no_unlocked_tree_access :
 /-- the compound defaults of `fs/base.py` that MemoryFS inherits are one locked block each -/
 def baseCompound : List String :=
   ["appendbytes", "appendtext", "copy", "copydir", "create", "download", "makedirs", "touch",
-   "upload", "writefile"]
+   "upload", "writefile", "readbytes", "writebytes", "readtext", "writetext"]
 
 theorem base_compound_single_segment :
     ∀ m ∈ baseCompound, shapeOf lockTable lockBases "MemoryFS" m = .singleLocked := by decide +kernel
@@ -66,56 +68,107 @@ def memSingleCall : List String :=
 theorem mem_queries_single_call :
     ∀ m ∈ memSingleCall, shapeOf lockTable lockBases "MemoryFS" m = .singleCall := by decide +kernel
 
-/-- the methods that are NOT one atomic piece on MemoryFS — the explicit exclusion list of the
-partial theorem (open + I/O + close without the filesystem lock) -/
-def memNonAtomic : List String := ["readbytes", "readtext", "writebytes", "writetext"]
+/-- REGRESSION (fix feefeca): `FS.readbytes` / `FS.writebytes` hold `self._lock` around
+open + read/write + close on every backend that inherits them -/
+theorem base_bytes_io_single_locked :
+    ∀ c ∈ ["MemoryFS", "OSFS"], ∀ m ∈ ["readbytes", "writebytes"],
+      shapeOf lockTable lockBases c m = .singleLocked := by decide +kernel
 
-theorem mem_non_atomic_are_multi :
-    ∀ m ∈ memNonAtomic, shapeOf lockTable lockBases "MemoryFS" m = .multi := by decide +kernel
+/-- REGRESSION (fix 652becf; the opposite of the former `base_move_is_check_then_act`): the
+`exists(dst)` / `getinfo(src)` checks, the rename attempt and the copy+remove of `FS.move` are ONE
+locked block on every backend that inherits it (only path validation precedes the lock) -/
+theorem base_move_single_locked :
+    shapeOf lockTable lockBases "OSFS" "move" = .singleLocked ∧
+    shapeOf lockTable lockBases "MountFS" "move" = .singleLocked ∧
+    shapeOf lockTable lockBases "MultiFS" "move" = .singleLocked := by decide +kernel
 
-/-- `FS.move` (used by OSFS, MountFS, MultiFS): pre-checks outside the lock, then the locked copy+remove -/
-theorem base_move_is_check_then_act :
-    shapeOf lockTable lockBases "OSFS" "move" = .multi ∧
-    shapeOf lockTable lockBases "MountFS" "move" = .multi ∧
-    shapeOf lockTable lockBases "MultiFS" "move" = .multi := by decide +kernel
+/-- REGRESSION (fix a9b2b2a; the opposite of the former `text_io_is_multi`): `FS.readtext` /
+`FS.writetext` hold `self._lock` around open + read/write + close, like the bytes variants.
+(Text I/O is not an operation of the model's language `Ref.Op`; it is covered by this table
+theorem, by `base_compound_single_segment` and by the line-level exploration of the harness.) -/
+theorem base_text_io_single_locked :
+    ∀ c ∈ ["MemoryFS", "OSFS"], ∀ m ∈ ["readtext", "writetext"],
+      shapeOf lockTable lockBases c m = .singleLocked := by decide +kernel
 
-/-- TABLE THEOREM (holds once `MemoryFS.removedir` takes the lock around its check-then-act) -/
+/-- no public read/write convenience method of `fs/base.py` is left as open + I/O + close without
+the lock: every entry of `FS` that opens a file and does file I/O on it is one locked block
+(`hash` reads in a loop under `openbin` and is a pure query of one file: listed explicitly) -/
+theorem base_file_io_methods_locked :
+    (lockTable.all fun e =>
+      !(e.cls == "FS" && (match e.body with
+          | .segs l => l.any fun sg => sg.acc.any fun a => match a with | .fileIO _ => true | _ => false
+          | .unknown _ => false)) ||
+      e.shape == .singleLocked || ["hash"].contains e.method) = true := by decide +kernel
+
+/-- the method behind every constructor of `Ref.Op` -/
+def opMethods : List String :=
+  ["exists", "isdir", "isfile", "listdir", "getsize", "gettype", "isempty", "getinfo", "readbytes",
+   "makedir", "makedirs", "writebytes", "appendbytes", "create", "touch", "settimes", "openbin",
+   "remove", "removedir", "removetree", "move", "copy", "movedir", "copydir"]
+
+/-- TABLE THEOREM: on MemoryFS every method of the `Ref.Op` language is one atomic piece — one
+locked block, or a single call that ends (through the table) in one locked block -/
+theorem every_op_method_atomic :
+    ∀ m ∈ opMethods, atomicIn lockTable lockBases 6 "MemoryFS" m = true := by decide +kernel
+
+/-- TABLE THEOREM: the implementation description the model runs with — everything atomic -/
 theorem table_impl :
-    tableImpl = { removedirAtomic := true, moveAtomic := true, writebytesAtomic := false,
-                  readbytesAtomic := false } := by decide +kernel
+    tableImpl = { removedirAtomic := true, moveAtomic := true, writebytesAtomic := true,
+                  readbytesAtomic := true } := by decide +kernel
 
-/-- the calls covered by the partial theorem: everything except `writebytes` / `readbytes` -/
-def coveredOp : Op → Bool
-  | .writebytes _ _ => false
-  | .readbytes _ => false
-  | _ => true
+theorem table_impl_all_atomic (c : Op) : isAtomic tableImpl c = true := by
+  rw [table_impl]; cases c <;> rfl
 
-/-- PARTIAL (excluded: `writebytes`, `readbytes` and — outside `Ref.Op` — `writetext`, `readtext`,
-see `memNonAtomic`): any number of concurrent calls of the covered MemoryFS methods, from any
-tree, under every schedule, are linearizable. -/
-theorem memoryfs_linearizable_partial (calls : List Op) (s : State)
-    (h : ∀ c ∈ calls, coveredOp c = true) : Linearizable tableImpl calls s := by
-  apply single_locked_segment_linearizable
-  intro c hc
-  apply segments_of_atomic
-  have := h c hc
-  rw [table_impl]
-  cases c <;> simp_all [isAtomic, coveredOp]
+/-- **FULL**: any number of concurrent calls of ANY operations of the FS API (`Ref.Op`) on one
+MemoryFS, from any tree, under every schedule, are linearizable: per-call results and final tree
+are those of some sequential order.  (`Op.close` is modelled as an atomic flag write; for the
+real code `close()` concurrent with calls is outside the claim.) -/
+theorem memoryfs_linearizable (calls : List Op) (s : State) : Linearizable tableImpl calls s :=
+  single_locked_segment_linearizable tableImpl calls s
+    (fun c _ => segments_of_atomic tableImpl c (table_impl_all_atomic c))
 
-/-- and they never deadlock -/
-theorem memoryfs_no_deadlock (calls : List Op) (s : State) (h : ∀ c ∈ calls, coveredOp c = true)
+/-- and no schedule ever deadlocks -/
+theorem memoryfs_no_deadlock (calls : List Op) (s : State)
     (sched : List Nat) (c' : Cfg State Loc) (hexec : (initCfg tableImpl s calls).exec sched = some c') :
-    c'.deadlocked = false := by
-  apply single_lock_never_deadlocks tableImpl calls s _ sched c' hexec
-  intro c hc
-  have := h c hc
-  rw [table_impl]
-  cases c <;> simp_all [isAtomic, coveredOp]
+    c'.deadlocked = false :=
+  single_lock_never_deadlocks tableImpl calls s (fun c _ => table_impl_all_atomic c) sched c' hexec
 
 example : Linearizable tableImpl
-    [.removedir "d".toList, .makedir "d/x".toList false, .move "f".toList "d/f".toList false]
+    [.removedir "d".toList, .writebytes "d/x".toList [1], .move "f".toList "d/f".toList false, .readbytes "f".toList]
     { root := .dir [("d".toList, .dir []), ("f".toList, .file [1])], closed := false } :=
-  memoryfs_linearizable_partial _ _ (by decide)
+  memoryfs_linearizable _ _
+
+/-! ### the repaired races (regression theorems; the lock-free variants are counterexamples in
+`C08Model.lean`) -/
+
+/-- fix 0e32556: `removedir(d) ‖ writebytes(d/x)` -/
+theorem memfs_removedir_race_repaired : Linearizable tableImpl raceCalls raceTree :=
+  memoryfs_linearizable _ _
+
+/-- …and, concretely, every maximal schedule of the model the table now yields is linearizable
+(two runs are left: one per order) -/
+theorem memfs_removedir_race_repaired_runs :
+    ((initCfg tableImpl raceTree raceCalls).allRuns).map
+      (fun r => (r.1, r.2.done, linOk raceCalls raceTree r.2)) =
+    [([0, 0, 0, 1, 1, 1], true, true), ([1, 1, 1, 0, 0, 0], true, true)] := by decide +kernel
+
+/-- fix 652becf: `move(a, b, overwrite=False) ‖ writebytes(b)` -/
+theorem fs_move_check_then_act_repaired : Linearizable tableImpl moveCalls moveTree :=
+  memoryfs_linearizable _ _
+
+/-- fix feefeca: `writebytes(f, [1]) ‖ writebytes(f, [2,3])` -/
+theorem memfs_writebytes_race_repaired : Linearizable tableImpl tornCalls tornTree :=
+  memoryfs_linearizable _ _
+
+theorem memfs_writebytes_race_repaired_runs :
+    ((initCfg tableImpl tornTree tornCalls).allRuns).all (fun r => r.2.done && linOk tornCalls tornTree r.2) = true := by
+  decide +kernel
+
+/-- fix feefeca: `readbytes(f) ‖ writebytes(f, new)` no longer returns the truncated file -/
+theorem memfs_readbytes_race_repaired :
+    Linearizable tableImpl [.readbytes "f".toList, .writebytes "f".toList [9]]
+      { root := .dir [("f".toList, .file [1, 2])], closed := false } :=
+  memoryfs_linearizable _ _
 
 /-! ## 3. lock order / deadlock -/
 
@@ -140,6 +193,6 @@ theorem unknown_bodies_listed :
 
 /-- with the lock around the check-then-act the same three calls are linearizable (what the patch buys) -/
 example : Linearizable tableImpl [.removedir "d".toList, .makedir "d/x".toList false] raceTree :=
-  memoryfs_linearizable_partial _ _ (by decide)
+  memoryfs_linearizable _ _
 
 end Fs.C08
